@@ -81,7 +81,7 @@ def run_both(cases, limit=64, fuel=600, per_case_timeout=10.0):
     for c in cases:
         flt = c["filter"].encode() if isinstance(c["filter"], str) else c["filter"]
         vs = [[n, v] for n, v in c.get("vars", [])]
-        impl_cases.append([c["id"], "run", flt, vs, c.get("inputs", ["null"]), str(limit)])
+        impl_cases.append([c["id"], "run", flt, vs, c.get("inputs", ["null"]), str(c.get("limit", limit))] + (["stop"] if c.get("stop") else []))
         impl_cases.append([c["id"] + ".p", "parse", flt])
     impl = run_cases(JAQH, impl_cases, per_case_timeout)
     model_cases = []
@@ -89,7 +89,7 @@ def run_both(cases, limit=64, fuel=600, per_case_timeout=10.0):
         tree = impl.get(c["id"] + ".p")
         if isinstance(tree, list) and tree and tree[0] == "ok":
             vs = [[n, v] for n, v in c.get("vars", [])]
-            model_cases.append([c["id"], "run", tree[1], vs, c.get("inputs", ["null"]), str(limit), str(c.get("fuel", fuel))])
+            model_cases.append([c["id"], "run", tree[1], vs, c.get("inputs", ["null"]), str(c.get("limit", limit)), str(c.get("fuel", fuel))])
     model = run_model_cases(model_cases)
     out = {}
     for c in cases:
